@@ -86,6 +86,7 @@ B('C05.dns-label-limit-off-by-one', ['C05'], [(P + 'dnsrec/record.py', "parser.p
 B('C08.dns-label-limit-too-strict', ['C01', 'C08'], [(P + 'dnsrec/record.py', "parser.parsed_length - label_offset - 1 > 63 or", "parser.parsed_length - label_offset - 1 >= 63 or")])
 N('benign.dns-label-limit-by-length-octet', [(P + 'dnsrec/record.py', "            if parser.parsed_length - label_offset - 1 > 63 or '.' in label:", "            if six.indexbytes(parsable, label_offset) >= 64 or label.find('.') >= 0:")])
 B('C02.dns-label-octet-read-before-it-is-known-to-exist', ['C02'], [(P + 'dnsrec/record.py', "            label_offset = parser.parsed_length\n            parser.parse_string('label', 1, encoding='idna')\n", "            label_offset = parser.parsed_length\n            if six.indexbytes(parsable, label_offset) >= 64:\n                raise InvalidValue(parsable, cls, 'labels')\n            parser.parse_string('label', 1, encoding='idna')\n")], mention='indexbytes')
+B('C05.sni-name-decoded-only', ['C05'], [(P + 'tls/extension.py', "            six.ensure_binary(host_name, 'idna')\n", "")], mention='TlsExtensionServerNameClient@accepted')
 B('C02.unsupported-width', ['C02'], [(P + 'tls/extension.py', "        parser.parse_numeric('record_size_limit', 2)", "        parser.parse_numeric('record_size_limit', 5)")], props=['C02'])
 B('C02.raw-index', ['C02'], [(P + 'tls/extension.py', "        if parser['extension_data']:\n            raise InvalidValue(parser['extension_data'], cls)",
                              "        if parser['extension_data'][0]:\n            raise InvalidValue(parser['extension_data'], cls)")])
